@@ -33,6 +33,8 @@ from hypothesis import strategies as st
 # ----------------------------------------------------------------------------- vocabulary
 NAMES = ("a", "b", "c", "A", "B", "p0", "p1")  # A: class defined in the module, B: imported, rest unresolved
 ATTRS = ("real", "b", "A")
+DOTTED_ROOTS = ("A", "B", "pk", "a", "c")  # module-level class, imported object, imported package, unknown names
+DOTTED_ATTRS = ("sub", "mod", "Thing", "b", "A", "real")
 KWNAMES = ("k", "key")
 PARAMS = ("p0", "p1", "p2", "p3", "p4", "p5")
 
@@ -347,7 +349,7 @@ SPECS = (">10", ".2f", "x", "^")
 
 # (weight, kind) of compound nodes in a general expression
 EXPR_KINDS = (
-    (6, "BinOp"), (4, "Attribute"), (4, "Call"), (4, "Subscript"), (3, "UnaryOp"), (3, "BoolOp"), (3, "Compare"),
+    (6, "BinOp"), (4, "Attribute"), (3, "Dotted"), (4, "Call"), (4, "Subscript"), (3, "UnaryOp"), (3, "BoolOp"), (3, "Compare"),
     (3, "IfExp"), (3, "Lambda"), (2, "List"), (3, "Tuple"), (2, "Set"), (3, "Dict"), (2, "ListComp"), (1, "SetComp"),
     (3, "GenExp"), (2, "DictComp"), (2, "NamedExpr"), (4, "JoinedStr"), (1, "Code"), (1, "Literal"),
 )  # fmt: skip
@@ -441,6 +443,16 @@ class Builder:
 
     def k_Attribute(self, d, lam, code):
         return {"t": "Attribute", "v": self.sub(d, lam, code), "attr": self.of(ATTRS)}
+
+    def dotted(self):
+        """A dotted chain of 3-5 parts rooted at a name (module-level, imported, package or unknown)."""
+        e = {"t": "Name", "id": self.of(DOTTED_ROOTS)}
+        for _ in range(self.count(2, 4)):
+            e = {"t": "Attribute", "v": e, "attr": self.of(DOTTED_ATTRS)}
+        return e
+
+    def k_Dotted(self, d, lam, code):
+        return self.dotted()
 
     def k_BinOp(self, d, lam, code):
         return {"t": "BinOp", "op": self.of(sorted(BINOPS)), "l": self.sub(d, lam, code), "r": self.sub(d, lam, code)}
@@ -611,8 +623,11 @@ class Builder:
         """Annotation-flavoured expression: names, dotted names, generics, unions, Callable-like lists, string
         annotations, Literal[...], with general expressions mixed in."""
         def base():
+            k = self.pick(8)
+            if k >= 6:
+                return self.dotted()
             n = self.name()
-            return {"t": "Attribute", "v": n, "attr": self.of(ATTRS)} if self.flag(25) else n
+            return {"t": "Attribute", "v": n, "attr": self.of(ATTRS)} if k >= 4 else n
 
         if d <= 0:
             k = self.pick(4)
